@@ -180,8 +180,7 @@ theorem eval_held_all (ops : DoubleOps D) :
     try simp_all [HeldOK, eval, evalList, evalSeq, evalArgs, evalFields, St.alloc, St.lock, St.unlock, St.setCell, St.get, Out.isValueOrError]
     first
     | done
-    | ((repeat' split) <;> simp_all [St.alloc, St.lock, St.unlock, St.setCell, St.get, Out.isValueOrError]; done)
-    | (trace_state; sorry))
+    | ((repeat' split) <;> simp_all [St.alloc, St.lock, St.unlock, St.setCell, St.get, Out.isValueOrError]; done))
 
 /-- **held-lock set empty after every evaluation that returns** -/
 theorem eval_held (ops : DoubleOps D) (e : Expr) (au : Bool) (st : St D) (h : st.held = [])
